@@ -3,8 +3,8 @@ From Coq Require Import List NArith Bool Arith Lia.
 From YQ Require Import Base.Str Gen.Formats Model.Cli Spec.CliSpec.
 Import ListNotations.
 
-Definition enc_nil (fid : N) (nul : bool) (r : result) : bool :=
-  match enc_class fid nul (r_node r) with EncErr => false | EncOk _ => true end.
+Definition enc_nil (fl : N -> bool) (fid : N) (nul : bool) (r : result) : bool :=
+  match enc_class fid nul (r_node r) with EncErr => false | EncOk _ => fl (r_id r) end.
 Definition enc_full (fid : N) (nul : bool) (r : result) : bool :=
   match enc_class fid nul (r_node r) with EncOk true => true | _ => false end.
 Definition matched (rs : list result) : bool := existsb (fun r => counts_as_match (r_node r)) rs.
@@ -21,64 +21,64 @@ Proof.
 Qed.
 
 (* PrintResults *)
-Lemma print_results_spec fid nul : forall rs p,
-  if forallb (enc_nil fid nul) rs
-  then print_results fid nul rs p = (padd fid nul p rs, true)
-  else snd (print_results fid nul rs p) = false.
+Lemma print_results_spec fl fid nul : forall rs p,
+  if forallb (enc_nil fl fid nul) rs
+  then print_results fl fid nul rs p = (padd fid nul p rs, true)
+  else snd (print_results fl fid nul rs p) = false.
 Proof.
   induction rs as [|r rs IH]; intro p.
   - cbn. rewrite padd_nil. reflexivity.
   - cbn [forallb print_results]. unfold enc_nil at 1.
-    destruct (enc_class fid nul (r_node r)) as [c|] eqn:E; cbn [andb].
-    + specialize (IH (mkP (if c then p_shown p ++ [r_id r] else p_shown p) (p_encoded p ++ [r_id r])
-                          (p_matched p || counts_as_match (r_node r)))).
-      destruct (forallb (enc_nil fid nul) rs); [|exact IH].
-      rewrite IH. f_equal. unfold padd, matched, ids. cbn [filter map existsb p_shown p_encoded p_matched].
-      unfold enc_full at 2. rewrite E.
-      destruct c; cbn [map]; rewrite <- ?app_assoc, ?orb_assoc; reflexivity.
-    + reflexivity.
+    destruct (enc_class fid nul (r_node r)) as [c|] eqn:E; cbn [andb]; [|reflexivity].
+    destruct (fl (r_id r)); cbn [andb]; [|reflexivity].
+    specialize (IH (mkP (if c then p_shown p ++ [r_id r] else p_shown p) (p_encoded p ++ [r_id r])
+                        (p_matched p || counts_as_match (r_node r)))).
+    destruct (forallb (enc_nil fl fid nul) rs); [|exact IH].
+    rewrite IH. f_equal. unfold padd, matched, ids. cbn [filter map existsb p_shown p_encoded p_matched].
+    unfold enc_full at 2. rewrite E.
+    destruct c; cbn [map]; rewrite <- ?app_assoc, ?orb_assoc; reflexivity.
 Qed.
 
-Lemma print_eval_spec fid nul e p :
+Lemma print_eval_spec fl fid nul e p :
   match eval_results e with
-  | Some rs => if forallb (enc_nil fid nul) rs then print_eval fid nul e p = (padd fid nul p rs, true)
-               else snd (print_eval fid nul e p) = false
-  | None => snd (print_eval fid nul e p) = false
+  | Some rs => if forallb (enc_nil fl fid nul) rs then print_eval fl fid nul e p = (padd fid nul p rs, true)
+               else snd (print_eval fl fid nul e p) = false
+  | None => snd (print_eval fl fid nul e p) = false
   end.
 Proof. destruct e as [|rs]; cbn; [reflexivity | apply print_results_spec]. Qed.
 
 (* Evaluate: the documents of one file *)
 Definition ok3 {A B} (x : A * bool * B) : bool := snd (fst x).
 
-Lemma eval_docs_spec fid nul : forall ds p count,
+Lemma eval_docs_spec fl fid nul : forall ds p count,
   match docs_results ds with
-  | Some rs => if forallb (enc_nil fid nul) rs
-               then eval_docs fid nul ds p count = (padd fid nul p rs, true, (count + length ds)%nat)
-               else ok3 (eval_docs fid nul ds p count) = false
-  | None => ok3 (eval_docs fid nul ds p count) = false
+  | Some rs => if forallb (enc_nil fl fid nul) rs
+               then eval_docs fl fid nul ds p count = (padd fid nul p rs, true, (count + length ds)%nat)
+               else ok3 (eval_docs fl fid nul ds p count) = false
+  | None => ok3 (eval_docs fl fid nul ds p count) = false
   end.
 Proof.
   induction ds as [|d ds IH]; intros p count.
   - cbn. rewrite padd_nil, Nat.add_0_r. reflexivity.
   - destruct d as [|[|rs]]; cbn [docs_results eval_docs print_eval]; try reflexivity.
-    pose proof (print_results_spec fid nul rs p) as Hp.
-    destruct (forallb (enc_nil fid nul) rs) eqn:Ers.
+    pose proof (print_results_spec fl fid nul rs p) as Hp.
+    destruct (forallb (enc_nil fl fid nul) rs) eqn:Ers.
     + rewrite Hp. specialize (IH (padd fid nul p rs) (S count)).
       destruct (docs_results ds) as [rs'|]; cbn [option_map].
       * rewrite forallb_app, Ers. cbn [andb].
-        destruct (forallb (enc_nil fid nul) rs'); [|exact IH].
+        destruct (forallb (enc_nil fl fid nul) rs'); [|exact IH].
         rewrite IH, padd_app. f_equal. cbn [length]. lia.
       * exact IH.
-    + assert (Hbad : ok3 (let '(p', ok) := print_results fid nul rs p in
-                          if ok then eval_docs fid nul ds p' (S count) else (p', false, count)) = false).
-      { destruct (print_results fid nul rs p) as [p' ok]. cbn in Hp. subst ok. reflexivity. }
+    + assert (Hbad : ok3 (let '(p', ok) := print_results fl fid nul rs p in
+                          if ok then eval_docs fl fid nul ds p' (S count) else (p', false, count)) = false).
+      { destruct (print_results fl fid nul rs p) as [p' ok]. cbn in Hp. subst ok. reflexivity. }
       destruct (docs_results ds) as [rs'|]; cbn [option_map]; [|exact Hbad].
       rewrite forallb_app, Ers. exact Hbad.
 Qed.
 
 Lemma eval_files_spec w fid nul : forall names p count,
   match files_results w names with
-  | Some (rs, n) => if forallb (enc_nil fid nul) rs
+  | Some (rs, n) => if forallb (enc_nil (w_flush_ok w) fid nul) rs
                     then eval_files w fid nul names p count = (padd fid nul p rs, true, (count + n)%nat)
                     else ok3 (eval_files w fid nul names p count) = false
   | None => ok3 (eval_files w fid nul names p count) = false
@@ -87,23 +87,23 @@ Proof.
   induction names as [|f fs IH]; intros p count.
   - cbn. rewrite padd_nil, Nat.add_0_r. reflexivity.
   - cbn [files_results eval_files]. destruct (w_fs w f) as [|ds]; [reflexivity|].
-    pose proof (eval_docs_spec fid nul ds p count) as Hd.
+    pose proof (eval_docs_spec (w_flush_ok w) fid nul ds p count) as Hd.
     destruct (docs_results ds) as [rs|].
-    + destruct (forallb (enc_nil fid nul) rs) eqn:Ers.
+    + destruct (forallb (enc_nil (w_flush_ok w) fid nul) rs) eqn:Ers.
       * rewrite Hd. specialize (IH (padd fid nul p rs) (count + length ds)%nat).
         destruct (files_results w fs) as [[rs' n]|].
         -- rewrite forallb_app, Ers. cbn [andb].
-           destruct (forallb (enc_nil fid nul) rs'); [|exact IH].
+           destruct (forallb (enc_nil (w_flush_ok w) fid nul) rs'); [|exact IH].
            rewrite IH, padd_app. f_equal. lia.
         -- exact IH.
-      * assert (Hbad : ok3 (let '(p', ok, count') := eval_docs fid nul ds p count in
+      * assert (Hbad : ok3 (let '(p', ok, count') := eval_docs (w_flush_ok w) fid nul ds p count in
                             if ok then eval_files w fid nul fs p' count' else (p', false, count')) = false).
-        { destruct (eval_docs fid nul ds p count) as [[p' ok] c']. cbn in Hd. subst ok. reflexivity. }
+        { destruct (eval_docs (w_flush_ok w) fid nul ds p count) as [[p' ok] c']. cbn in Hd. subst ok. reflexivity. }
         destruct (files_results w fs) as [[rs' n]|]; [|exact Hbad].
         rewrite forallb_app, Ers. exact Hbad.
-    + assert (Hbad : ok3 (let '(p', ok, count') := eval_docs fid nul ds p count in
+    + assert (Hbad : ok3 (let '(p', ok, count') := eval_docs (w_flush_ok w) fid nul ds p count in
                           if ok then eval_files w fid nul fs p' count' else (p', false, count')) = false).
-      { destruct (eval_docs fid nul ds p count) as [[p' ok] c']. cbn in Hd. subst ok. reflexivity. }
+      { destruct (eval_docs (w_flush_ok w) fid nul ds p count) as [[p' ok] c']. cbn in Hd. subst ok. reflexivity. }
       exact Hbad.
 Qed.
 
@@ -111,33 +111,33 @@ Lemma p0_padd fid nul rs :
   padd fid nul p0 rs = mkP (shown_ids fid nul rs) (ids rs) (matched rs).
 Proof. reflexivity. Qed.
 
-Definition run_fine (fid : N) (nul : bool) (x : pstate * bool) (exp : option (list result)) : Prop :=
+Definition run_fine (fl : N -> bool) (fid : N) (nul : bool) (x : pstate * bool) (exp : option (list result)) : Prop :=
   match exp with
-  | Some rs => if forallb (enc_nil fid nul) rs
+  | Some rs => if forallb (enc_nil fl fid nul) rs
                then x = (mkP (shown_ids fid nul rs) (ids rs) (matched rs), true)
                else snd x = false
   | None => snd x = false
   end.
 
 Lemma stream_run_spec w fid nul names :
-  run_fine fid nul (stream_run w fid nul names) (stream_expected w names).
+  run_fine (w_flush_ok w) fid nul (stream_run w fid nul names) (stream_expected w names).
 Proof.
   unfold run_fine, stream_run, stream_expected.
   destruct (w_expr_ok w); cbn [negb]; [|reflexivity].
   pose proof (eval_files_spec w fid nul names p0 O) as Hf.
   destruct (files_results w names) as [[rs n]|].
-  - destruct (forallb (enc_nil fid nul) rs) eqn:Ers.
+  - destruct (forallb (enc_nil (w_flush_ok w) fid nul) rs) eqn:Ers.
     + rewrite Hf. cbn [negb Nat.add].
       destruct n as [|n].
-      * pose proof (print_eval_spec fid nul (w_null_out w) (padd fid nul p0 rs)) as Hn.
+      * pose proof (print_eval_spec (w_flush_ok w) fid nul (w_null_out w) (padd fid nul p0 rs)) as Hn.
         destruct (eval_results (w_null_out w)) as [rs'|]; cbn [option_map]; [|exact Hn].
         rewrite forallb_app, Ers. cbn [andb].
-        destruct (forallb (enc_nil fid nul) rs'); [|exact Hn].
+        destruct (forallb (enc_nil (w_flush_ok w) fid nul) rs'); [|exact Hn].
         rewrite Hn, padd_app. reflexivity.
       * rewrite Ers. reflexivity.
     + assert (Hbad : snd (let '(p, ok, count) := eval_files w fid nul names p0 0 in
                           if negb ok then (p, false)
-                          else match count with O => print_eval fid nul (w_null_out w) p | S _ => (p, true) end) = false).
+                          else match count with O => print_eval (w_flush_ok w) fid nul (w_null_out w) p | S _ => (p, true) end) = false).
       { destruct (eval_files w fid nul names p0 0) as [[p ok] c]. cbn in Hf. subst ok. reflexivity. }
       destruct n as [|n].
       * destruct (eval_results (w_null_out w)) as [rs'|]; cbn [option_map]; [|exact Hbad].
@@ -158,18 +158,18 @@ Proof.
 Qed.
 
 Lemma all_run_spec w fid nul names :
-  run_fine fid nul (all_run w fid nul names) (all_expected w names).
+  run_fine (w_flush_ok w) fid nul (all_run w fid nul names) (all_expected w names).
 Proof.
   unfold run_fine, all_run, all_expected. rewrite read_all_count.
   destruct (w_expr_ok w); cbn [negb].
   - destruct (all_count w names) as [n|]; cbn [option_map]; [|reflexivity].
     cbn [Nat.add].
-    pose proof (print_eval_spec fid nul (match n with O => w_null_out w | S _ => w_all_out w end) p0) as Hn.
+    pose proof (print_eval_spec (w_flush_ok w) fid nul (match n with O => w_null_out w | S _ => w_all_out w end) p0) as Hn.
     destruct n; exact Hn.
   - destruct (all_count w names); reflexivity.
 Qed.
 
-Lemma new_run_spec w fid nul : run_fine fid nul (new_run w fid nul) (new_expected w).
+Lemma new_run_spec w fid nul : run_fine (w_flush_ok w) fid nul (new_run w fid nul) (new_expected w).
 Proof.
   unfold run_fine, new_run, new_expected. destruct (w_expr_ok w); cbn [negb]; [|reflexivity].
   apply print_eval_spec.
@@ -179,10 +179,10 @@ Qed.
 (* the command *)
 Definition complete_run (c : cli) (w : world) : Prop :=
   exists fid rs, usable_formats c = Some fid /\ expected c w = Some rs
-    /\ all_encoded fid (c_nul c) rs = true
+    /\ all_encoded (w_flush_ok w) fid (c_nul c) rs = true
     /\ (c_exit_status c = true -> matched rs = true).
 
-Lemma all_encoded_eq fid nul rs : all_encoded fid nul rs = forallb (enc_nil fid nul) rs.
+Lemma all_encoded_eq fl fid nul rs : all_encoded fl fid nul rs = forallb (enc_nil fl fid nul) rs.
 Proof. reflexivity. Qed.
 
 Lemma run_cases c w :
@@ -193,7 +193,7 @@ Lemma run_cases c w :
       match expected c w with
       | None => o_exit (run c w) = 1%N /\ o_stderr (run c w) = true
       | Some rs =>
-          if all_encoded fid (c_nul c) rs
+          if all_encoded (w_flush_ok w) fid (c_nul c) rs
           then if c_exit_status c && negb (matched rs)
                then run c w = mkOut 1 (shown_ids fid (c_nul c) rs) (ids rs) true false
                else run c w = mkOut 0 (shown_ids fid (c_nul c) rs) (ids rs) false false
@@ -214,11 +214,11 @@ Proof.
             else stream_run w (fmt_id fo) (c_nul c) (c_files c)).
   set (e := if c_null c then new_expected w
             else if c_all c then all_expected w (c_files c) else stream_expected w (c_files c)).
-  assert (Hx : run_fine (fmt_id fo) (c_nul c) x e).
+  assert (Hx : run_fine (w_flush_ok w) (fmt_id fo) (c_nul c) x e).
   { subst x e. destruct (c_null c); [apply new_run_spec|].
     destruct (c_all c); [apply all_run_spec | apply stream_run_spec]. }
   unfold run_fine in Hx. fold e. destruct e as [rs|].
-  - rewrite all_encoded_eq. destruct (forallb (enc_nil (fmt_id fo) (c_nul c)) rs).
+  - rewrite all_encoded_eq. destruct (forallb (enc_nil (w_flush_ok w) (fmt_id fo) (c_nul c)) rs).
     + rewrite Hx. cbn [negb p_matched p_shown p_encoded].
       destruct (c_exit_status c && negb (matched rs)); reflexivity.
     + destruct x as [p ok]. cbn in Hx. subst ok. cbn. split; reflexivity.
@@ -236,7 +236,7 @@ Proof.
   2:{ split; [intro E; exfalso; exact (proj1 H E) | intros (f & rs & E & _); discriminate E]. }
   destruct (expected c w) as [rs|].
   2:{ split; [intro E; rewrite (proj1 H) in E; discriminate E | intros (f & rs & _ & E & _); discriminate E]. }
-  destruct (all_encoded fid (c_nul c) rs) eqn:Eenc.
+  destruct (all_encoded (w_flush_ok w) fid (c_nul c) rs) eqn:Eenc.
   - destruct (c_exit_status c && negb (matched rs)) eqn:Ee; rewrite H; cbn [o_exit].
     + split; [discriminate|]. intros (f & rs' & Ef & Er & _ & Hm). injection Er as <-.
       apply andb_true_iff in Ee as [E1 E2]. rewrite (Hm E1) in E2. discriminate E2.
@@ -253,7 +253,7 @@ Theorem exit0_output c w fid rs :
   /\ (all_complete fid (c_nul c) rs = true -> o_shown (run c w) = ids rs).
 Proof.
   intros Hin E Ef Er. pose proof (run_cases c w Hin) as H. rewrite Ef, Er in H.
-  destruct (all_encoded fid (c_nul c) rs); [|rewrite (proj1 H) in E; discriminate E].
+  destruct (all_encoded (w_flush_ok w) fid (c_nul c) rs); [|rewrite (proj1 H) in E; discriminate E].
   assert (Hfull : all_complete fid (c_nul c) rs = true -> shown_ids fid (c_nul c) rs = ids rs).
   { unfold all_complete, shown_ids. intro Hc. f_equal. clear -Hc.
     induction rs as [|r rs IH]; [reflexivity|]. cbn in *. apply andb_true_iff in Hc as [H1 H2].
@@ -269,7 +269,7 @@ Proof.
   destruct (usable_formats c) as [fid|]; [|split; intros _; apply H].
   destruct (expected c w) as [rs|].
   2:{ destruct H as [H1 H2]. rewrite H1, H2. split; [discriminate | reflexivity]. }
-  destruct (all_encoded fid (c_nul c) rs).
+  destruct (all_encoded (w_flush_ok w) fid (c_nul c) rs).
   - destruct (c_exit_status c && negb (matched rs)); rewrite H; cbn; split; try discriminate; try reflexivity.
     intro X. exfalso. apply X. reflexivity.
   - destruct H as [H1 H2]. rewrite H1, H2. split; [discriminate | reflexivity].
@@ -278,7 +278,7 @@ Qed.
 (* -e *)
 Theorem e_flag c w fid rs :
   has_input c = true -> c_exit_status c = true ->
-  usable_formats c = Some fid -> expected c w = Some rs -> all_encoded fid (c_nul c) rs = true ->
+  usable_formats c = Some fid -> expected c w = Some rs -> all_encoded (w_flush_ok w) fid (c_nul c) rs = true ->
   (o_exit (run c w) = 1%N <-> Forall (fun r => not_a_match (r_node r) = true) rs).
 Proof.
   intros Hin He Ef Er Henc. pose proof (run_cases c w Hin) as H. rewrite Ef, Er, Henc, He in H. cbn [andb] in H.
@@ -296,9 +296,10 @@ Qed.
 (* -n *)
 Theorem n_reads_nothing c w1 w2 :
   c_null c = true -> w_expr_ok w1 = w_expr_ok w2 -> w_null_out w1 = w_null_out w2 ->
+  w_flush_ok w1 = w_flush_ok w2 ->
   run c w1 = run c w2.
 Proof.
-  intros Hn He Ho. unfold run, new_run. rewrite Hn, He, Ho.
+  intros Hn He Ho Hf. unfold run, new_run. rewrite Hn, He, Ho, Hf.
   destruct (init_command c); [reflexivity|].
   destruct (format_from_string outFmt); [|reflexivity].
   destruct (fmt_has_encoder f); [|reflexivity]. cbn [negb].
@@ -377,7 +378,7 @@ Qed.
 
 Theorem e_flag_documented c w fid rs :
   has_input c = true -> c_exit_status c = true ->
-  usable_formats c = Some fid -> expected c w = Some rs -> all_encoded fid (c_nul c) rs = true ->
+  usable_formats c = Some fid -> expected c w = Some rs -> all_encoded (w_flush_ok w) fid (c_nul c) rs = true ->
   Forall (fun r => bool_well_spelled (r_node r) = true) rs ->
   (o_exit (run c w) = 1%N <-> Forall (fun r => null_or_false (r_node r) = true) rs).
 Proof.
@@ -385,4 +386,14 @@ Proof.
   rewrite !Forall_forall in *. split; intros H r Hr; specialize (H r Hr); specialize (Hw r Hr).
   - rewrite <- (e_rule_agrees _ Hw). exact H.
   - rewrite (e_rule_agrees _ Hw). exact H.
+Qed.
+
+Theorem failed_write_fails c w fid rs r :
+  has_input c = true -> usable_formats c = Some fid -> expected c w = Some rs ->
+  In r rs -> w_flush_ok w (r_id r) = false -> o_exit (run c w) <> 0%N.
+Proof.
+  intros Hin Ef Er Hr Hfl E. apply (exit0_iff_complete c w Hin) in E.
+  destruct E as (f & rs' & Ef' & Er' & Henc & _). rewrite Er in Er'. injection Er' as <-.
+  unfold all_encoded in Henc. rewrite forallb_forall in Henc. specialize (Henc r Hr).
+  destruct (enc_class f (c_nul c) (r_node r)); [rewrite Hfl in Henc|]; discriminate Henc.
 Qed.
